@@ -62,7 +62,10 @@ fn main() {
                 std::process::exit(2);
             };
             let scale = arg_val(&args, "--scale").and_then(|s| s.parse().ok()).unwrap_or(1.0);
-            let cfg = BatchCfg { seed: seed_from_env(), tier, verif_dir, workers, scale, write_evidence: !args.iter().any(|a| a == "--no-evidence") };
+            // --seed-salt N: a different batch from the same VERIF_SEED (the secondary pass explores other runs than the main pass)
+            let salt: u64 = arg_val(&args, "--seed-salt").and_then(|s| s.parse().ok()).unwrap_or(0);
+            let seed = if salt == 0 { seed_from_env() } else { core::mix(seed_from_env(), "seed-salt", salt) & 0x7fff_ffff_ffff_ffff };
+            let cfg = BatchCfg { seed, tier, verif_dir, workers, scale, write_evidence: !args.iter().any(|a| a == "--no-evidence") };
             std::process::exit(run_property(def, &cfg));
         }
         Some("replay") => {
